@@ -107,6 +107,15 @@ static int line_to_instr(struct instr *instr_data, char *filtered_asm_str) {
     fprintf(stderr, "assembyline: jrcxz displacement out of range\n");
     return EXIT_FAILURE;
   }
+  // a relative displacement has at most 32 bits
+  if (instr_data->imm &&
+      (TYPE(instr_data->key, CONTROL_FLOW) ||
+       NAME(instr_data->key, xbegin)) &&
+      instr_data->cons > MAX_UNSIGNED_32BIT &&
+      instr_data->cons < NEG32BIT + NEG32BIT_CHECK) {
+    fprintf(stderr, "assembyline: displacement out of range\n");
+    return EXIT_FAILURE;
+  }
   // call has no short form: never advance to a rel8 row
   if (instr_data->imm && TYPE(instr_data->key, CONTROL_FLOW) &&
       !NAME(instr_data->key, call)) {
